@@ -23,6 +23,7 @@ type Env struct {
 	vars  map[string]Val
 	heap  *Heap
 	old   *Heap
+	inOld bool // evaluating inside old(...)
 	now   string
 	blk   *ssa.BasicBlock // program point for local-name resolution
 	idx   int
@@ -313,6 +314,19 @@ func (e *Env) lookupIdent(name string) (Val, bool) {
 	}
 	if e.fr != nil {
 		fr := e.fr
+		// old(v) of a variable captured by reference: the variable's cell in the pre-state, not the
+		// SSA value of the dominating read (which follows assignments made inside the closure)
+		if e.inOld {
+			for i, fv := range fr.fn.FreeVars {
+				if pt, ok := fv.Type().Underlying().(*types.Pointer); ok && fv.Name() == name && i < len(fr.freeVars) {
+					v := fr.freeVars[i]
+					v.Typ = fv.Type()
+					lv := fr.loadPtr(e.heap, v, pt.Elem())
+					lv.Typ = pt.Elem()
+					return lv, true
+				}
+			}
+		}
 		// loop-header phis and dominating DebugRefs
 		if v, ok := fr.resolveLocal(name, e.blk, e.idx, e.heap); ok {
 			return v, true
@@ -579,6 +593,11 @@ func (e *Env) evalBinary(t *ast.BinaryExpr) Val {
 		return intVal("(div " + a.T() + " " + b.T() + ")")
 	case token.REM:
 		return intVal("(mod " + a.T() + " " + b.T() + ")")
+	case token.OR:
+		// the same uninterpreted bit operations the code translation uses (axiomatised bounds only)
+		return intVal("(bor " + a.T() + " " + b.T() + ")")
+	case token.AND:
+		return intVal("(band " + a.T() + " " + b.T() + ")")
 	}
 	e.errf("unsupported operator %s", t.Op)
 	return intVal("0")
@@ -853,6 +872,7 @@ func (e *Env) evalCall(t *ast.CallExpr) Val {
 	case "old":
 		n := *e
 		n.heap = e.old
+		n.inOld = true
 		if e.old == nil {
 			e.errf("old() used where no pre-state exists")
 			n.heap = e.heap
